@@ -5,7 +5,7 @@
 (*   neg (a NegatedIntercept was left in the model).                                          *)
 (* The Abs denotation is computed here, from the tree, never taken from the harness.          *)
 EXTENDS TermAlgebra, Json, IOUtils
-AtomOrderDef == <<"a", "b", "c", "d", "F", "H", "Q", "K", "L", "M", "N", "O", "P", "R", "S", "g", "h", "k">>
+AtomOrderDef == <<"a", "b", "c", "d", "F", "H", "Q", "K", "L", "M", "N", "O", "P", "R", "S", "U", "V", "W", "g", "h", "k">>
 VARIABLES i, nbad
 Ev == ndJsonDeserialize(IOEnv.FV_TRACE)
 SetOf(s) == {s[k] : k \in 1..Len(s)}
